@@ -549,6 +549,53 @@ static void fmap_ftrie_case(Rng & rng, const F::Factors & sp, int maxOps) {
 }
 
 
+// FilterMap with a structured item type: emplace forwards 0, 1 or 2 constructor arguments (`Args&&...`); items cross the protocol
+// encoded as a * 1000 + b, so the line is an ordinary `fmt` / `fmf` history
+template <class It> static size_t it_second(It it) { return it->second; }
+
+template <class TrieT>
+static void fmap_pair_case(Rng & rng, const F::Factors & sp) {
+    constexpr bool isTrie = std::is_same_v<TrieT, F::Trie>;
+    using Item = std::pair<size_t, size_t>;
+    using FM = F::FilterMap<Item, TrieT>;
+    FM fm(sp);
+    auto enc = [](const Item & x) { return x.first * 1000 + x.second; };
+    Line l; l << "C20" << (isTrie ? "fmt" : "fmf"); l.nats(sp);
+    int nops = (int)rng.range(6, 30);
+    size_t n = 0;
+    for (int o = 0; o < nops; ++o) {
+        unsigned r = (unsigned)rng.below(10);
+        if (o < 3 || r < 5) {
+            PF pf = randomPF(rng, sp, isTrie);
+            size_t a = 1 + rng.below(900), b = rng.below(1000);
+            unsigned form = (unsigned)rng.below(3);
+            if (form == 0) { fm.emplace(pf, a, b); }
+            else if (form == 1) { fm.emplace(pf, Item{a, b}); }
+            else { fm.emplace(pf); a = 0; b = 0; }
+            l << "emp"; pfTok(l, pf); l << (a * 1000 + b); ++n;
+            std::printf("#stat emplace_args_%u 1\n", form == 0 ? 2u : form == 1 ? 1u : 0u);
+        } else if (r < 8) {
+            size_t len = isTrie ? (size_t)rng.range(1, (long)sp.size()) : (rng.coin() ? sp.size() : rng.below(sp.size() + 1));
+            F::Factors f(len);
+            for (size_t i = 0; i < len; ++i) f[i] = rng.below(sp[i]);
+            std::vector<size_t> ids, items;
+            auto res = fm.filter(f);
+            for (auto it = res.begin(); it != res.end(); ++it) { ids.push_back(it.toContainerId()); items.push_back(enc(*it)); }
+            for (size_t k = 0; k < ids.size(); ++k) if (it_second(res.begin() + (long)k) != items[k] % 1000) items[k] = 999999999;   // operator-> on a struct item
+            l << "flf"; l.nats(f) << (size_t)0; l.nats(ids); l.nats(items);
+        } else if (r == 8 && n) {
+            size_t id = rng.below(n);
+            l << "get" << id << enc(fm[id]);
+        } else {
+            std::vector<size_t> a, b;
+            for (auto & x : fm) a.push_back(enc(x));
+            for (auto & x : fm.getContainer()) b.push_back(enc(x));
+            l << "all"; l.nats(a); l.nats(b);
+        }
+    }
+    l << "siz" << fm.size() << "end"; l.emit();
+}
+
 // FilterMap(trie, items) given a trie that has seen erasures: the constructor compares sizes only.  The ids a filter hands out are
 // read with toContainerId() (never dereferenced here), so an id outside the container is reported, not executed.
 // `C20 fmc trie|ftrie <F> <ops…> | n outcome nq (q ids)*`
@@ -747,7 +794,14 @@ void verif::verif_case(Rng & rng, long idx, const std::string & tier) {
                 F::Factors sp((size_t)rng.range(2, 5));
                 for (auto & d : sp) d = (size_t)rng.range(1, 4);
                 if (rng.coin()) fmc_case<F::Trie>(rng, sp, "trie"); else fmc_case<F::FasterTrie>(rng, sp, "ftrie");
-            } else match_case(rng);
+            } else {
+                match_case(rng);
+                if (i % 4 == 0) {
+                    F::Factors sp((size_t)rng.range(2, 5));
+                    for (auto & d : sp) d = (size_t)rng.range(1, 4);
+                    if (rng.coin()) fmap_pair_case<F::Trie>(rng, sp); else fmap_pair_case<F::FasterTrie>(rng, sp);
+                }
+            }
         }
         return;
     }
